@@ -29,7 +29,9 @@ ResampleRule(e) == \/ e.wb = <<>>                       \* weights not available
                       /\ MustNotResample(e.wb) => ~e.resampled
                       /\ e.resampled => Uniform(e.w)
                       /\ ~e.resampled => (e.w = e.wb /\ xs' = xs)
-TraceInit == /\ tid \in 1..Len(Traces) /\ l = 1
+\* a trace whose start forest does not hold exactly the data 0..N-1 (a previous update lost or duplicated data) has no
+\* initial state: it is reported as unmatched, never evaluated
+TraceInit == /\ tid \in {k \in 1..Len(Traces) : DataOf(StateOf(Traces[k].s0)) = Data} /\ l = 1
              /\ s0 = StateOf(Traces[tid].s0) /\ sig = <<>> /\ t = 0 /\ xs = NoSwarm /\ phase = "sigma" /\ out = Empty
 TraceNext == /\ l <= Len(Traces[tid].events) /\ l' = l + 1 /\ UNCHANGED tid
              /\ CASE Ev.ev = "sigma"    -> DrawSigma /\ sig' = Ev.sigma
